@@ -423,6 +423,83 @@ var scenarios = []scenario{
 			s.FindAll(&model.Query{Coll: c, Sorted: true, HasLimit: true, Limit: 3})
 		}
 	}},
+	{"large-collection-index-ddl", "C07 C14 C06 C02 C08", func(s *S) {
+		// index and collection DDL on a collection that is larger than any batching / background threshold a
+		// store layer is likely to use; whatever DropIndex and DropCollection do, it is complete when they return
+		base := numDocs(800)
+		docs := append(append([]map[string]any{}, base[800:]...), base[:800]...) // the five odd ones (no x, nil, string, ...) first
+		for i := 1000; len(docs) < 4305; i++ {
+			docs = append(docs, map[string]any{"_id": fixedID(i), "x": int64(i), "g": int64(i % 3)})
+		}
+		s.CreateCollection("big", nil)
+		s.Insert("big", docs, false)
+		s.CreateIndex("big", "x")
+		s.DropIndex("big", "x")
+		// one operation between the two: whatever DropIndex left for later is still pending (the monitor holds
+		// foreign write transactions back for three operations) when the index is created again
+		s.UpdateById("big", fixedID(7), &Upd{Name: "set", Set: map[string]any{"x": int64(100007)}})
+		s.CreateIndex("big", "x")
+		s.FindAll(&model.Query{Coll: "big", Sorted: true, Sort: []model.SortOpt{{Field: "x", Dir: 1}}})
+		s.Count(&model.Query{Coll: "big", Crit: cmpc(model.OpGtEq, "x", int64(0))})
+		s.FindAll(&model.Query{Coll: "big", Crit: cmpc(model.OpLtEq, "x", int64(40))})
+		s.FindAll(&model.Query{Coll: "big", Crit: cmpc(model.OpGtEq, "x", int64(100000))})
+		s.AuditPhysical("DropIndex, updates, CreateIndex on 4300 documents")
+		if s.failed {
+			return
+		}
+		s.DropIndex("big", "x")
+		s.Bulk(BulkDelete, &model.Query{Coll: "big", Crit: cmpc(model.OpGt, "x", int64(30))}, nil)
+		s.CreateIndex("big", "x")
+		s.FindAll(&model.Query{Coll: "big", Sorted: true, Sort: []model.SortOpt{{Field: "x", Dir: -1}}})
+		s.Count(&model.Query{Coll: "big", Crit: cmpc(model.OpGtEq, "x", int64(0))})
+		s.AuditPhysical("DropIndex, bulk delete, CreateIndex")
+		if s.failed {
+			return
+		}
+		s.Insert("big", docs[40:], false)
+		s.DropCollection("big")
+		s.CreateCollection("big", nil)
+		s.Insert("big", docs[:60], false)
+		s.CreateIndex("big", "x")
+		s.FindAll(&model.Query{Coll: "big", Sorted: true, Sort: []model.SortOpt{{Field: "x", Dir: 1}}})
+		s.Count(&model.Query{Coll: "big", Crit: cmpc(model.OpGtEq, "x", int64(0))})
+		s.Audit("DropCollection of 4300 documents, re-creation under the same name")
+	}},
+	{"large-batch-duplicates", "C12 C03 C04 C06", func(s *S) {
+		// a duplicate _id far into a batch larger than any plausible internal chunk: ErrDuplicateKey, and nothing is stored
+		mk := func(from, n int) []map[string]any {
+			out := make([]map[string]any, n)
+			for i := range out {
+				out[i] = map[string]any{"_id": fixedID(from + i), "a": int64((from + i) % 7)}
+			}
+			return out
+		}
+		s.CreateCollection("b", nil)
+		s.CreateIndex("b", "a")
+		s.Insert("b", mk(1, 3), false)
+		all := &model.Query{Coll: "b"}
+		dupInBatch := mk(100, 10500)
+		dupInBatch[10499] = map[string]any{"_id": fixedID(110), "a": int64(1)} // repeats a document of the same batch
+		s.Insert("b", dupInBatch, false)
+		s.Count(all)
+		dupStored := mk(20000, 10500)
+		dupStored[10001] = map[string]any{"_id": fixedID(2), "a": int64(1)} // repeats a stored document, just after position 10000
+		s.Insert("b", dupStored, false)
+		s.Count(all)
+		s.FindAll(all)
+		twice := mk(40000, 20001)
+		twice[20000] = map[string]any{"_id": fixedID(40001), "a": int64(5)}
+		s.Insert("b", twice, false)
+		s.Count(all)
+		s.Count(&model.Query{Coll: "b", Crit: cmpc(model.OpGtEq, "a", int64(0))})
+		s.AuditPhysical("three refused batches of more than 10000 documents")
+		if s.failed {
+			return
+		}
+		s.Insert("b", mk(100, 10500), false) // and the same batch without the duplicate goes in whole
+		s.Count(all)
+		s.Count(&model.Query{Coll: "b", Crit: cmpc(model.OpEq, "a", int64(3))})
+	}},
 	{"isolation-prefix-names-shared-ids", "C13 C06", func(s *S) {
 		names := []string{"c", "cc", "c:", "coll:", "", "cx"}
 		docs := numDocs(4)
